@@ -105,6 +105,7 @@ class Report:
         self.assumptions = []
         self.notes = []
         self._known = known_findings(prop)
+        rmtree(os.path.join(EVID, 'replay', prop))     # replays describe the violations of the LAST run only
 
     def add_tlc(self, res, label=None):
         self.coverage['states'] += int(res.states)
